@@ -2,9 +2,11 @@
 //! locals / fields of locals (shadowing `let`), `&mut self` method calls on local places, if/match as
 //! statements (branches that only assign are joined through a tuple; branches that return get the
 //! continuation duplicated into them).
+use crate::expr::strip_parens;
 use crate::tr::*;
 use crate::types::*;
 use std::cell::RefCell;
+use std::collections::BTreeMap;
 use syn::*;
 
 fn let_in(pat: &str, simple: bool, v: &str, rest: &str) -> String {
@@ -19,10 +21,38 @@ fn let_in(pat: &str, simple: bool, v: &str, rest: &str) -> String {
     }
 }
 
+fn expr_attrs(e: &Expr) -> &[Attribute] {
+    match e {
+        Expr::Block(x) => &x.attrs,
+        Expr::If(x) => &x.attrs,
+        Expr::Match(x) => &x.attrs,
+        Expr::Loop(x) => &x.attrs,
+        Expr::While(x) => &x.attrs,
+        Expr::ForLoop(x) => &x.attrs,
+        Expr::Return(x) => &x.attrs,
+        Expr::Assign(x) => &x.attrs,
+        Expr::Binary(x) => &x.attrs,
+        Expr::Call(x) => &x.attrs,
+        Expr::MethodCall(x) => &x.attrs,
+        Expr::Macro(x) => &x.attrs,
+        Expr::Unsafe(x) => &x.attrs,
+        Expr::Paren(x) => &x.attrs,
+        Expr::Struct(x) => &x.attrs,
+        Expr::Tuple(x) => &x.attrs,
+        Expr::Path(x) => &x.attrs,
+        Expr::Lit(x) => &x.attrs,
+        Expr::Break(x) => &x.attrs,
+        Expr::Continue(x) => &x.attrs,
+        Expr::Try(x) => &x.attrs,
+        Expr::Let(x) => &x.attrs,
+        _ => &[],
+    }
+}
+
 fn is_skipped_macro(m: &Macro) -> bool {
     let n = m.path.segments.last().map(|s| s.ident.to_string()).unwrap_or_default();
-    // debug assertions have no effect on the (non-panicking) value semantics that is translated
-    n == "debug_assert" || n == "debug_assert_eq" || n == "debug_assert_ne"
+    // assertions have no effect on the (non-panicking) value semantics that is translated
+    n == "debug_assert" || n == "debug_assert_eq" || n == "debug_assert_ne" || n == "assert" || n == "assert_eq" || n == "assert_ne"
 }
 
 impl<'a> Tr<'a> {
@@ -79,7 +109,26 @@ impl<'a> Tr<'a> {
             Expr::Assign(a) => self.assign_k(&a.left, None, &a.right, env, e, k),
             Expr::Binary(b) if is_compound(&b.op) => self.assign_k(&b.left, Some(&b.op), &b.right, env, e, k),
             Expr::Macro(m) if is_skipped_macro(&m.mac) => k(self, unit()),
+            Expr::MethodCall(m) if m.method == "inspect" && m.args.len() == 1 && matches!(&m.args[0], Expr::Closure(c) if c.inputs.len() == 1 && matches!(c.inputs[0], Pat::Wild(_))) => {
+                // `opt.inspect(|_| { statements })`: the statements run when `opt` is Some; the value is `opt`
+                let body: &Expr = match &m.args[0] {
+                    Expr::Closure(c) => &c.body,
+                    _ => unreachable!(),
+                };
+                self.expr_k(&m.receiver, env, hint, &|tr, v| {
+                    if !matches!(v.ty, Ty::Option(_)) {
+                        return Err(unsupported(e, &format!("`inspect` on a value of type {} (only Option)", v.ty.show())));
+                    }
+                    let x = tr.fresh("v");
+                    let vt = v.ty.clone();
+                    let some = tr.expr_k(body, env, None, &|tr2, _| k(tr2, Val { s: format!("(Some {})", x), ty: vt.clone() }))?;
+                    let none = k(tr, Val { s: "None".into(), ty: v.ty.clone() })?;
+                    Ok(format!("match {} with\n| Some {} =>\n{}\n| None =>\n{}\nend", v.s, x, some, none))
+                })
+            }
             Expr::MethodCall(m) if Self::get_mut_chain(m).is_some() => self.get_mut_chain_k(m, env, e, k),
+            Expr::MethodCall(m) if m.method == "copy_from_slice" && m.args.len() == 1 && matches!(strip_parens(&m.receiver), Expr::Index(_)) => self.array_copy_k(m, env, e, k),
+            Expr::MethodCall(m) if Self::view_chain(m).is_some() => self.view_chain_k(m, env, e, k),
             Expr::Loop(l) => {
                 if l.label.is_some() {
                     return Err(unsupported(e, "labelled loop"));
@@ -97,6 +146,7 @@ impl<'a> Tr<'a> {
                     return Err(unsupported(e, "`break` with a label or a value"));
                 }
                 match self.loops.last() {
+                    Some((c, _)) if c == "@@FOR@@" => Err(unsupported(e, "`break` inside a `for` over an array literal (the loop is unrolled)")),
                     Some((_, brk)) => Ok(brk.clone()),
                     None => Err(unsupported(e, "`break` outside a loop")),
                 }
@@ -106,6 +156,7 @@ impl<'a> Tr<'a> {
                     return Err(unsupported(e, "`continue` with a label"));
                 }
                 match self.loops.last() {
+                    Some((c, _)) if c == "@@FOR@@" => Err(unsupported(e, "`continue` inside a `for` over an array literal (the loop is unrolled)")),
                     Some((cont, _)) => Ok(cont.clone()),
                     None => Err(unsupported(e, "`continue` outside a loop")),
                 }
@@ -126,6 +177,18 @@ impl<'a> Tr<'a> {
             return k(self, unit());
         }
         let (first, rest) = (&stmts[0], &stmts[1..]);
+        {
+            // attributes inside a body (`#[cfg(..)]`, `#[cfg_attr(..)]`, ...) change what is compiled: fail closed
+            let attrs: &[Attribute] = match first {
+                Stmt::Local(l) => &l.attrs,
+                Stmt::Macro(m) => &m.attrs,
+                Stmt::Expr(e, _) => expr_attrs(e),
+                Stmt::Item(_) => &[],
+            };
+            if let Some(a) = attrs.iter().find(|a| !(a.path().is_ident("allow") || a.path().is_ident("doc") || a.path().is_ident("inline") || a.path().is_ident("rustfmt"))) {
+                return Err(unsupported(first, &format!("attribute `#[{}..]` on a statement or expression inside a function body", a.path().segments.last().map(|s| s.ident.to_string()).unwrap_or_default())));
+            }
+        }
         match first {
             Stmt::Local(l) => {
                 let init = match &l.init {
@@ -179,6 +242,9 @@ impl<'a> Tr<'a> {
                     (None, Pat::Ident(pi), Expr::MethodCall(mc)) if (mc.method == "saturating_as" || mc.method == "into") && mc.turbofish.is_none() => {
                         self.infer_from_use(&pi.ident.to_string(), rest)
                     }
+                    (None, Pat::Ident(pi), Expr::MethodCall(mc)) if mc.method == "unwrap" && matches!(&*mc.receiver, Expr::MethodCall(i) if i.method == "try_into") => {
+                        self.infer_from_use(&pi.ident.to_string(), rest)
+                    }
                     _ => ann,
                 };
                 let fa = self.fn_assigned.clone();
@@ -230,15 +296,56 @@ impl<'a> Tr<'a> {
         }
     }
 
+    /// `for pat in [e1, .., en] { body }`: the array is built first (all elements evaluated, in order), then the body is
+    /// unrolled once per element
     fn for_unrolled(&mut self, pat: &Pat, elems: &[&Expr], i: usize, body: &Block, env: &Env, k: K) -> R<String> {
+        if i == 0 {
+            // evaluate the elements eagerly into temporaries
+            let mut env2 = env.clone();
+            let mut lets: Vec<(String, String)> = vec![];
+            let mut names: Vec<Expr> = vec![];
+            for x in elems.iter() {
+                let eff = self.effects_expr(x);
+                if eff.ret || !eff.assigned.is_empty() {
+                    return Err(unsupported(*x, "array element with effects in a `for` over an array literal"));
+                }
+                let v = self.pure(x, &env2, None)?;
+                let (e3, rn, cn) = self.bind_tmp(&env2, &v);
+                env2 = e3;
+                lets.push((cn, v.s));
+                names.push(crate::effects::path_expr_of(&rn));
+            }
+            let refs: Vec<&Expr> = names.iter().collect();
+            // `break` / `continue` inside the unrolled body would refer to this `for`: not translated
+            self.loops.push(("@@FOR@@".into(), "@@FOR@@".into()));
+            let r = self.for_unrolled_from(pat, &refs, 0, body, &env2, env, k);
+            self.loops.pop();
+            let mut r = r?;
+            for (c, v) in lets.iter().rev() {
+                r = let_in(c, true, v, &r);
+            }
+            return Ok(r);
+        }
+        unreachable!()
+    }
+
+    #[allow(clippy::too_many_arguments)]
+    fn for_unrolled_from(&mut self, pat: &Pat, elems: &[&Expr], i: usize, body: &Block, env: &Env, env_after: &Env, k: K) -> R<String> {
         if i == elems.len() {
-            return k(self, unit());
+            // the continuation after the loop is translated outside the `for` frame
+            let frame = self.loops.pop();
+            let r = k(self, unit());
+            if let Some(f) = frame {
+                self.loops.push(f);
+            }
+            let _ = env_after;
+            return r;
         }
         let v = self.pure(elems[i], env, None)?;
         let mut env2 = env.clone();
         let ps = self.bind_pat(pat, &v.ty, &mut env2)?;
         let simple = matches!(pat, Pat::Ident(_) | Pat::Wild(_));
-        let rest = self.stmts_k(&body.stmts, &env2, None, &|tr, _v| tr.for_unrolled(pat, elems, i + 1, body, env, k))?;
+        let rest = self.stmts_k(&body.stmts, &env2, None, &|tr, _v| tr.for_unrolled_from(pat, elems, i + 1, body, env, env_after, k))?;
         Ok(let_in(&ps, simple, &v.s, &rest))
     }
 
@@ -248,6 +355,7 @@ impl<'a> Tr<'a> {
             name: String,
             fns: &'t Vec<FnInfo>,
             found: Option<Ty>,
+            conflict: bool,
         }
         impl<'ast, 't> syn::visit::Visit<'ast> for V<'t> {
             fn visit_expr_method_call(&mut self, m: &'ast ExprMethodCall) {
@@ -258,6 +366,20 @@ impl<'a> Tr<'a> {
                 if let Expr::Path(p) = &*c.func {
                     if let Some(s) = p.path.segments.last() {
                         self.check(&s.ident.to_string(), c.args.iter().collect());
+                    }
+                    // `uN::from_le_bytes(name)` / `from_be_bytes`: name is a `[u8; N/8]`
+                    if p.path.segments.len() == 2 && c.args.len() == 1 {
+                        let f = p.path.segments[1].ident.to_string();
+                        if let (Some(t), true, Expr::Path(a)) = (IntTy::from_name(&p.path.segments[0].ident.to_string()), f == "from_le_bytes" || f == "from_be_bytes", &c.args[0]) {
+                            if a.path.is_ident(&self.name) {
+                                let ty = Ty::Tuple(vec![Ty::int(IntTy::U8); (t.bits() / 8) as usize]);
+                                match &self.found {
+                                    None => self.found = Some(ty),
+                                    Some(old) if *old != ty => self.conflict = true,
+                                    _ => {}
+                                }
+                            }
+                        }
                     }
                 }
                 syn::visit::visit_expr_call(self, c);
@@ -280,12 +402,16 @@ impl<'a> Tr<'a> {
                 }
             }
         }
-        let mut v = V { name: name.to_string(), fns: &self.t.fns, found: None };
+        let mut v = V { name: name.to_string(), fns: &self.t.fns, found: None, conflict: false };
         for st in rest {
             syn::visit::Visit::visit_stmt(&mut v, st);
         }
+        if v.conflict {
+            return None;
+        }
         v.found
     }
+
 
     /// `slice.get_mut(i).ok_or(err).map(|b| { *b = v; })`: (slice place, index, error, closure)
     fn get_mut_chain(m: &ExprMethodCall) -> Option<(&Expr, &Expr, &Expr, &ExprClosure)> {
@@ -355,6 +481,191 @@ impl<'a> Tr<'a> {
             e = ev.s
         );
         Ok(crate::effects::let_pat(&[tmp, r], &m, &rest))
+    }
+
+    /// `arr[a..b].copy_from_slice(&src);` on a local array (N-tuple) with literal bounds and an array `src` of b - a elements
+    fn array_copy_k(&mut self, m: &ExprMethodCall, env: &Env, at: &Expr, k: K) -> R<String> {
+        let ix = match strip_parens(&m.receiver) {
+            Expr::Index(ix) => ix,
+            _ => unreachable!(),
+        };
+        let (root, path) = self.target_of(&ix.expr)?;
+        let av = self.pure(&ix.expr, env, None)?;
+        let n = match &av.ty {
+            Ty::Tuple(ts) => ts.len(),
+            t => return Err(unsupported(at, &format!("`x[a..b].copy_from_slice(..)` on a value of type {} (only a local array)", t.show()))),
+        };
+        let lit_of = |e: &Option<Box<Expr>>, dflt: usize| -> R<usize> {
+            match e.as_deref() {
+                None => Ok(dflt),
+                Some(Expr::Lit(ExprLit { lit: Lit::Int(i), .. })) => i.base10_parse::<usize>().map_err(|x| unsupported(at, &x.to_string())),
+                Some(_) => Err(unsupported(at, "`x[a..b].copy_from_slice(..)` whose bounds are not literals")),
+            }
+        };
+        let (a, b) = match strip_parens(&ix.index) {
+            Expr::Range(r) if matches!(r.limits, RangeLimits::HalfOpen(_)) => (lit_of(&r.start, 0)?, lit_of(&r.end, n)?),
+            _ => return Err(unsupported(at, "`x[i].copy_from_slice(..)` whose index is not a half-open range")),
+        };
+        let sv = self.pure(&m.args[0], env, None)?;
+        let sn = match &sv.ty {
+            Ty::Tuple(ts) => ts.len(),
+            t => return Err(unsupported(at, &format!("copy_from_slice from a value of type {} (only an array)", t.show()))),
+        };
+        if a > b || b > n || b - a != sn {
+            return Err(unsupported(at, &format!("`x[{}..{}].copy_from_slice(..)` of {} elements into an array of {}: Rust panics here", a, b, sn, n)));
+        }
+        let dst: Vec<String> = (0..n).map(|i| format!("d{}_", i)).collect();
+        let src: Vec<String> = (0..sn).map(|i| format!("s{}_", i)).collect();
+        let out: Vec<String> = (0..n).map(|i| if i >= a && i < b { src[i - a].clone() } else { dst[i].clone() }).collect();
+        let newv = format!("(let '({}) := {} in let '({}) := {} in ({}))", dst.join(", "), av.s, src.join(", "), sv.s, out.join(", "));
+        let tmp = self.fresh("arr");
+        let rest = k(self, unit())?;
+        let rest = self.write_place(&root, &path, env, &tmp, &rest, at)?;
+        Ok(let_in(&tmp, true, &newv, &rest))
+    }
+
+    /// `<option of a mutable sub-slice>.ok_or(err).map(|b| b.copy_from_slice(&src))`: (view option, error, closure param, src)
+    fn view_chain(m: &ExprMethodCall) -> Option<(&Expr, &Expr, String, &Expr)> {
+        if m.method != "map" || m.args.len() != 1 {
+            return None;
+        }
+        let cl = match &m.args[0] {
+            Expr::Closure(c) if c.inputs.len() == 1 => c,
+            _ => return None,
+        };
+        let p = match &cl.inputs[0] {
+            Pat::Ident(i) if i.by_ref.is_none() && i.subpat.is_none() => i.ident.to_string(),
+            _ => return None,
+        };
+        let body: &Expr = match &*cl.body {
+            Expr::Block(b) if b.block.stmts.len() == 1 => match &b.block.stmts[0] {
+                Stmt::Expr(x, _) => x,
+                _ => return None,
+            },
+            x => x,
+        };
+        let cp = match body {
+            Expr::MethodCall(c) if c.method == "copy_from_slice" && c.args.len() == 1 && matches!(&*c.receiver, Expr::Path(q) if q.path.is_ident(&p)) => c,
+            _ => return None,
+        };
+        let ok = match &*m.receiver {
+            Expr::MethodCall(o) if o.method == "ok_or" && o.args.len() == 1 => o,
+            _ => return None,
+        };
+        Some((&ok.receiver, &ok.args[0], p, &cp.args[0]))
+    }
+
+    /// an expression of type Option<&mut [T]> built from `root.get_mut(range)`, `.and_then(|v| v.get_mut(range))` and
+    /// `<pure option>.and_then(|x| ..)`, as a Coq `option (Z * Z)` (offset, length) into the root slice
+    fn view_opt(&mut self, e: &Expr, env: &Env, views: &BTreeMap<String, String>, root: &mut Option<(String, Val)>) -> R<String> {
+        let us = Ty::int(IntTy::Usize);
+        match strip_parens(e) {
+            Expr::MethodCall(g) if g.method == "get_mut" && g.args.len() == 1 => {
+                let rn = match strip_parens(&g.receiver) {
+                    Expr::Path(p) if p.path.segments.len() == 1 => p.path.segments[0].ident.to_string(),
+                    _ => return Err(unsupported(e, "get_mut(range) on something that is not a variable")),
+                };
+                let base = match views.get(&rn) {
+                    Some(c) => c.clone(),
+                    None => {
+                        let v = self.pure(&g.receiver, env, None)?;
+                        if !matches!(v.ty, Ty::Slice(_)) {
+                            return Err(unsupported(e, &format!("get_mut(range) on a value of type {}", v.ty.show())));
+                        }
+                        match root {
+                            Some((r, _)) if *r != rn => return Err(unsupported(e, "sub-slices of two different slices in one chain")),
+                            _ => {}
+                        }
+                        let s = format!("(Casts.view_all {})", v.s);
+                        *root = Some((rn.clone(), v));
+                        s
+                    }
+                };
+                let r = match strip_parens(&g.args[0]) {
+                    Expr::Range(r) if matches!(r.limits, RangeLimits::HalfOpen(_)) => r,
+                    _ => return Err(unsupported(e, "get_mut whose argument is not a half-open range (in a sub-slice chain)")),
+                };
+                let mut bound = |tr: &mut Tr, x: &Option<Box<Expr>>| -> R<Option<String>> {
+                    match x {
+                        Some(x) => {
+                            let v = tr.pure(x, env, Some(&us))?;
+                            join(&v.ty, &us).map_err(|m| unsupported(e, &m))?;
+                            Ok(Some(v.s))
+                        }
+                        None => Ok(None),
+                    }
+                };
+                let a = bound(self, &r.start)?.unwrap_or_else(|| "0".to_string());
+                Ok(match bound(self, &r.end)? {
+                    Some(b) => format!("(Casts.view_range {} {} {})", base, a, b),
+                    None => format!("(Casts.view_from {} {})", base, a),
+                })
+            }
+            Expr::MethodCall(a) if a.method == "and_then" && a.args.len() == 1 => {
+                let cl = match &a.args[0] {
+                    Expr::Closure(c) if c.inputs.len() == 1 => c,
+                    _ => return Err(unsupported(e, "and_then argument that is not a one-parameter closure")),
+                };
+                let mut r2 = root.clone();
+                if let Ok(vo) = self.view_opt(&a.receiver, env, views, &mut r2) {
+                    *root = r2;
+                    let p = match &cl.inputs[0] {
+                        Pat::Ident(i) if i.by_ref.is_none() && i.subpat.is_none() => i.ident.to_string(),
+                        _ => return Err(unsupported(e, "closure parameter of a sub-slice chain")),
+                    };
+                    let c = self.fresh("view");
+                    let mut views2 = views.clone();
+                    views2.insert(p, c.clone());
+                    let body = self.view_opt(&cl.body, env, &views2, root)?;
+                    return Ok(format!("(match {} with | Some {} => {} | None => None end)", vo, c, body));
+                }
+                let ov = self.pure(&a.receiver, env, None)?;
+                let inner = match &ov.ty {
+                    Ty::Option(t) => (**t).clone(),
+                    t => return Err(unsupported(e, &format!("and_then on a value of type {}", t.show()))),
+                };
+                let mut env2 = env.clone();
+                let p = self.bind_pat(&cl.inputs[0], &inner, &mut env2)?;
+                // the closure parameter may shadow a view name
+                let mut views2 = views.clone();
+                if let Pat::Ident(i) = &cl.inputs[0] {
+                    views2.remove(&i.ident.to_string());
+                }
+                let body = self.view_opt(&cl.body, &env2, &views2, root)?;
+                Ok(format!("(match {} with | Some {} => {} | None => None end)", ov.s, p, body))
+            }
+            _ => Err(unsupported(e, "expression that is not a chain of get_mut(range) / and_then (mutable sub-slices are only translated in that form)")),
+        }
+    }
+
+    fn view_chain_k(&mut self, m: &ExprMethodCall, env: &Env, at: &Expr, k: K) -> R<String> {
+        let (vo_e, err, _p, src) = Self::view_chain(m).unwrap();
+        let mut root: Option<(String, Val)> = None;
+        let vo = self.view_opt(vo_e, env, &BTreeMap::new(), &mut root)?;
+        let (rname, rv) = root.ok_or_else(|| unsupported(at, "sub-slice chain without a root slice"))?;
+        let elem = match &rv.ty {
+            Ty::Slice(t) => (**t).clone(),
+            _ => unreachable!(),
+        };
+        let ev = self.pure(err, env, None)?;
+        let sv = self.pure(src, env, None)?;
+        let src_list = match &sv.ty {
+            Ty::Tuple(ts) if ts.iter().all(|t| join(t, &elem).is_ok()) => {
+                let names: Vec<String> = (0..ts.len()).map(|i| format!("s{}_", i)).collect();
+                format!("(let '({}) := {} in [{}])", names.join(", "), sv.s, names.join("; "))
+            }
+            Ty::Slice(t) if join(t, &elem).is_ok() => sv.s.clone(),
+            t => return Err(unsupported(at, &format!("copy_from_slice from a value of type {}", t.show()))),
+        };
+        let (root_var, path) = self.target_of(&syn::parse_str::<Expr>(&rname).map_err(|x| x.to_string())?)?;
+        let r = self.fresh("res");
+        let rty = Ty::Result(Box::new(Ty::Unit), Box::new(ev.ty.clone()));
+        let rest = k(self, Val { s: r.clone(), ty: rty })?;
+        let tmp = self.fresh("sl");
+        let rest = self.write_place(&root_var, &path, env, &tmp, &rest, at)?;
+        let view = self.fresh("view");
+        let mm = format!("(match {vo} with\n| Some {v} => (Casts.view_copy {s} {v} {src}, inl tt)\n| None => ({s}, inr {e})\nend)", vo = vo, v = view, s = rv.s, src = src_list, e = ev.s);
+        Ok(crate::effects::let_pat(&[tmp, r], &mm, &rest))
     }
 
     fn body_k(&mut self, b: &Body, env: &Env, hint: Option<&Ty>, k: K) -> R<String> {
@@ -511,7 +822,13 @@ impl<'a> Tr<'a> {
     fn plain_match_k(&mut self, sc: &Val, arms: &[&Arm], rest: Option<&str>, env: &Env, hint: Option<&Ty>, k: K) -> R<String> {
         let mut pats = vec![];
         let mut bodies = vec![];
-        for arm in arms.iter() {
+        for (ai, arm) in arms.iter().enumerate() {
+            if matches!(arm.pat, Pat::Wild(_) | Pat::Ident(_)) && (ai + 1 < arms.len() || rest.is_some()) {
+                return Err(unsupported(*arm, "a catch-all arm that is not the last arm"));
+            }
+            if arm.attrs.iter().any(|a| !(a.path().is_ident("allow") || a.path().is_ident("doc") || a.path().is_ident("rustfmt"))) {
+                return Err(unsupported(*arm, "attribute on a match arm"));
+            }
             let mut env2 = env.clone();
             let mut ps = self.bind_pat(&arm.pat, &sc.ty, &mut env2)?;
             // a top-level or-pattern is written without the surrounding parentheses
@@ -621,14 +938,14 @@ impl<'a> Tr<'a> {
         match &base.ty {
             Ty::Adt(n) => {
                 let s = self.t.struct_info(n).ok_or_else(|| unsupported(at, "field assignment on a non-struct"))?;
-                if s.ctor == "-" || s.fields.iter().any(|f| f.proj == "-") {
+                if s.ctor == "-" || s.fields.iter().any(|f| f.proj == "-" && !is_phantom(&f.ty)) {
                     return Err(unsupported(at, &format!("field assignment on `{}`, which is only partially mapped", n)));
                 }
                 if !s.fields.iter().any(|f| f.name == fname) {
                     return Err(unsupported(at, &format!("`{}` has no field `{}`", n, fname)));
                 }
                 let mut args = vec![];
-                for f in s.fields.iter() {
+                for f in s.fields.iter().filter(|f| !is_phantom(&f.ty)) {
                     let cur = Val { s: format!("({} {})", f.proj, base.s), ty: f.ty.clone() };
                     if f.name == fname {
                         args.push(self.update(&cur, &path[1..], new, at)?);
@@ -662,6 +979,26 @@ impl<'a> Tr<'a> {
     }
 
     fn assign_k(&mut self, left: &Expr, op: Option<&BinOp>, right: &Expr, env: &Env, at: &Expr, k: K) -> R<String> {
+        if let Expr::Index(ix) = strip_parens(left) {
+            // `place[i] = v` on a slice / long array (a list): Rust panics out of range, the list is unchanged here
+            if op.is_some() {
+                return Err(unsupported(at, "compound assignment to an indexed element"));
+            }
+            let (root, path) = self.place(&ix.expr)?;
+            let base = self.pure(&ix.expr, env, None)?;
+            let elem = match &base.ty {
+                Ty::Slice(t) => (**t).clone(),
+                t => return Err(unsupported(at, &format!("assignment to an element of a value of type {} (only slices / long arrays)", t.show()))),
+            };
+            let us = Ty::int(IntTy::Usize);
+            let r = self.pure(right, env, Some(&elem))?;
+            join(&r.ty, &elem).map_err(|m| unsupported(at, &m))?;
+            let i = self.pure(&ix.index, env, Some(&us))?;
+            join(&i.ty, &us).map_err(|m| unsupported(at, &m))?;
+            let newv = format!("(Casts.slice_set {} {} {})", base.s, i.s, r.s);
+            let rest = k(self, unit())?;
+            return self.write_place(&root, &path, env, &newv, &rest, at);
+        }
         let (root, path) = self.place(left)?;
         let var = env.get(&root).cloned().ok_or_else(|| unsupported(at, &format!("assignment to `{}` which is not a local variable", root)))?;
         let cur = self.pure(left, env, None)?;
